@@ -210,6 +210,7 @@ type retInfo struct {
 	cond string
 	vals []Val
 	st   *State
+	into []string // conditions of the edges that enter the returning block
 }
 
 type deferred struct {
@@ -675,7 +676,13 @@ func (fr *Frame) step(b *ssa.BasicBlock, ins ssa.Instruction, st *State, reach s
 			vals[i] = fr.get(r)
 			vals[i].T = fr.fn.Signature.Results().At(i).Type()
 		}
-		fr.rets = append(fr.rets, retInfo{cond: reach, vals: vals, st: st.clone()})
+		var into []string
+		for _, pb := range b.Preds {
+			if c, ok := fr.edge[[2]int{pb.Index, b.Index}]; ok {
+				into = append(into, c)
+			}
+		}
+		fr.rets = append(fr.rets, retInfo{cond: reach, vals: vals, st: st.clone(), into: into})
 	case *ssa.Panic:
 		fr.safe("panic", reach, "false", x.Pos())
 	case *ssa.SliceToArrayPointer, *ssa.MultiConvert:
